@@ -35,6 +35,7 @@ type Exit struct {
 	Why     string // description for panic exits
 	Pos     token.Pos
 	Allowed string // for call-induced panics: nothing
+	Checked bool
 }
 
 type fnExec struct {
@@ -48,6 +49,7 @@ type fnExec struct {
 	// boxed non-pointer values held in interfaces, by ref term
 	boxed   map[string]TV
 	depth   int
+	nret    int
 	strLits map[string]StrV
 }
 
@@ -69,6 +71,8 @@ type frame struct {
 	exits   []*Exit
 	recoverV *IfV // value returned by recover() in this frame (inlined deferred closures)
 	recovered bool
+	sliceOrigin map[ssa.Value]PtrV // slices of local arrays (a callee may write through them)
+	top       bool // the activation of the function under contract itself
 	loops   map[*ssa.BasicBlock]*loopInfo
 	dom     map[*ssa.BasicBlock]map[*ssa.BasicBlock]bool
 }
@@ -500,6 +504,7 @@ func (fr *frame) enterBlock(b *ssa.BasicBlock, edges []edge) *State {
 	s.assert(app(">=", n, st.now))
 	hst.now = n
 	r := s.fresh(fmt.Sprintf("B%dh", b.Index), SBool)
+	s.assert(implies(r, st.reach)) // an arbitrary iteration is reached only through the loop entry
 	hst.reach = r
 	// 3. assume invariant
 	env := fr.loopEnv(li, hst)
@@ -552,7 +557,7 @@ func (fr *frame) assumeTypeFacts(st *State, v Val, t types.Type) {
 	case StrV:
 		s.assert(and(app("<=", "0", x.Len), app("<=", "0", x.Off)))
 	case SliceV:
-		s.assert(and(app("<=", "0", x.Len), app("<=", "0", x.Off), implies(x.Nil, eq(x.Len, "0"))))
+		s.assert(and(app("<=", "0", x.Len), implies(x.Nil, eq(x.Len, "0"))))
 	case PtrV:
 		s.assert(and(app("<=", "0", x.Addr), app("<", app("birth", x.Addr), st.now)))
 	case IfV:
@@ -654,6 +659,9 @@ func (fr *frame) havocLoop(li *loopInfo, st *State) {
 				c2 := fx.g.contractFor(callee)
 				if c2 == nil {
 					panic(unsupported("call to function without contract inside a loop: " + callee.String()))
+				}
+				if c2.PanicKind == "always" {
+					continue // never returns normally: its effects cannot reach the loop head
 				}
 				for _, m := range c2.Modifies {
 					// evaluate the modifies path with arguments that are loop-invariant
@@ -802,7 +810,11 @@ func (fr *frame) execBlock(b *ssa.BasicBlock, st *State, in map[*ssa.BasicBlock]
 			for _, r := range x.Results {
 				rs = append(rs, fr.val(r))
 			}
-			fr.exits = append(fr.exits, &Exit{Kind: "return", St: st, Results: rs, Pos: x.Pos()})
+			ex := &Exit{Kind: "return", St: st, Results: rs, Pos: x.Pos()}
+			fr.exits = append(fr.exits, ex)
+			if fr.top {
+				fx.checkPost(ex)
+			}
 			return
 		case *ssa.Panic:
 			pv := fr.val(x.X)
